@@ -494,29 +494,102 @@ TypeName(v) ==
     [] v.t = "arr" -> "array"
     [] v.t = "obj" -> "object"
 
-Ascii(s) == \* TLA+ string literal -> code points, for the few names the spec needs
-  CASE s = "null" -> << 110, 117, 108, 108 >>
-    [] s = "boolean" -> << 98, 111, 111, 108, 101, 97, 110 >>
-    [] s = "number" -> << 110, 117, 109, 98, 101, 114 >>
-    [] s = "string" -> << 115, 116, 114, 105, 110, 103 >>
-    [] s = "array" -> << 97, 114, 114, 97, 121 >>
-    [] s = "object" -> << 111, 98, 106, 101, 99, 116 >>
-    [] s = "start" -> << 115, 116, 97, 114, 116 >>
-    [] s = "end" -> << 101, 110, 100 >>
-    [] s = "key" -> << 107, 101, 121 >>
-    [] s = "value" -> << 118, 97, 108, 117, 101 >>
-    [] s = "a" -> << 97 >>
-    [] s = "b" -> << 98 >>
-    [] s = "c" -> << 99 >>
-    [] s = "x" -> << 120 >>
-    [] s = "foobar" -> << 102, 111, 111, 98, 97, 114 >>
-    [] s = "foo" -> << 102, 111, 111 >>
-    [] s = "bar" -> << 98, 97, 114 >>
-    [] s = "ob" -> << 111, 98 >>
-    [] s = "p" -> << 112 >>
-    [] s = "q" -> << 113 >>
-    [] s = "k" -> << 107 >>
-    [] s = "v" -> << 118 >>
-    [] s = "d" -> << 100 >>
-    [] s = "" -> <<>>
+CharCode(ch) ==  \* one printable ASCII character (a TLA+ string of length one) -> its code
+  CASE ch = " " -> 32
+    [] ch = "!" -> 33
+    [] ch = "\"" -> 34
+    [] ch = "#" -> 35
+    [] ch = "$" -> 36
+    [] ch = "%" -> 37
+    [] ch = "&" -> 38
+    [] ch = "'" -> 39
+    [] ch = "(" -> 40
+    [] ch = ")" -> 41
+    [] ch = "*" -> 42
+    [] ch = "+" -> 43
+    [] ch = "," -> 44
+    [] ch = "-" -> 45
+    [] ch = "." -> 46
+    [] ch = "/" -> 47
+    [] ch = "0" -> 48
+    [] ch = "1" -> 49
+    [] ch = "2" -> 50
+    [] ch = "3" -> 51
+    [] ch = "4" -> 52
+    [] ch = "5" -> 53
+    [] ch = "6" -> 54
+    [] ch = "7" -> 55
+    [] ch = "8" -> 56
+    [] ch = "9" -> 57
+    [] ch = ":" -> 58
+    [] ch = ";" -> 59
+    [] ch = "<" -> 60
+    [] ch = "=" -> 61
+    [] ch = ">" -> 62
+    [] ch = "?" -> 63
+    [] ch = "@" -> 64
+    [] ch = "A" -> 65
+    [] ch = "B" -> 66
+    [] ch = "C" -> 67
+    [] ch = "D" -> 68
+    [] ch = "E" -> 69
+    [] ch = "F" -> 70
+    [] ch = "G" -> 71
+    [] ch = "H" -> 72
+    [] ch = "I" -> 73
+    [] ch = "J" -> 74
+    [] ch = "K" -> 75
+    [] ch = "L" -> 76
+    [] ch = "M" -> 77
+    [] ch = "N" -> 78
+    [] ch = "O" -> 79
+    [] ch = "P" -> 80
+    [] ch = "Q" -> 81
+    [] ch = "R" -> 82
+    [] ch = "S" -> 83
+    [] ch = "T" -> 84
+    [] ch = "U" -> 85
+    [] ch = "V" -> 86
+    [] ch = "W" -> 87
+    [] ch = "X" -> 88
+    [] ch = "Y" -> 89
+    [] ch = "Z" -> 90
+    [] ch = "[" -> 91
+    [] ch = "\\" -> 92
+    [] ch = "]" -> 93
+    [] ch = "^" -> 94
+    [] ch = "_" -> 95
+    [] ch = "`" -> 96
+    [] ch = "a" -> 97
+    [] ch = "b" -> 98
+    [] ch = "c" -> 99
+    [] ch = "d" -> 100
+    [] ch = "e" -> 101
+    [] ch = "f" -> 102
+    [] ch = "g" -> 103
+    [] ch = "h" -> 104
+    [] ch = "i" -> 105
+    [] ch = "j" -> 106
+    [] ch = "k" -> 107
+    [] ch = "l" -> 108
+    [] ch = "m" -> 109
+    [] ch = "n" -> 110
+    [] ch = "o" -> 111
+    [] ch = "p" -> 112
+    [] ch = "q" -> 113
+    [] ch = "r" -> 114
+    [] ch = "s" -> 115
+    [] ch = "t" -> 116
+    [] ch = "u" -> 117
+    [] ch = "v" -> 118
+    [] ch = "w" -> 119
+    [] ch = "x" -> 120
+    [] ch = "y" -> 121
+    [] ch = "z" -> 122
+    [] ch = "{" -> 123
+    [] ch = "|" -> 124
+    [] ch = "}" -> 125
+    [] ch = "~" -> 126
+\* TLA+ string literal -> code points (TLC evaluates Len and SubSeq on strings)
+Ascii(s) == [i \in 1..Len(s) |-> CharCode(SubSeq(s, i, i))]
 =============================================================================
